@@ -132,7 +132,7 @@ theorem depositOk_above (zz : Array ℚ) (φ adz : ℚ) (hg : GridOk zz) (h : gv
       field_simp; ring
     rw [e]
     exact div_pos (by linarith) hw
-  · rw [hfl]; exact div_neg_of_neg_of_pos (by linarith) hw
+  · rw [hfl, div_lt_iff₀ hw]; linarith
   · rw [hfu, lt_div_iff₀ hw]; linarith
 
 /-- undershoot `δ = z_0 - ad_z ≥ 0` (round-off below 0): well defined as long as `δ·(z_2-z_1) < (z_1-z_0)²`; the upper
@@ -180,5 +180,56 @@ theorem depositAt_linear (zz : Array ℚ) (φ adz : ℚ) (h2 : 2 ≤ zz.size) (k
 
 theorem depositAt_zero (zz : Array ℚ) (adz : ℚ) (h2 : 2 ≤ zz.size) (k : ℕ) : depositAt zz 0 adz k = 0 := by
   rw [depositAt_linear zz 0 adz h2 k, zero_mul]
+
+/-! ### densities: the new / the destination population carries the parental mixture frequency -/
+
+/-- constructor, any number of parents: per source cell, the first moment of the deposit along the new axis is the mixed
+    frequency Σ_m coefs[m]·x_m times its zeroth moment -/
+theorem newPopRaw_mixture (grids : List (Array ℚ)) (zz : Array ℚ) (coefs : List ℚ) (P : Dens) (idx : Idx) (hg : GridOk zz) :
+    ∑ k ∈ range zz.size, gv zz k * (newPopRaw grids zz coefs P).f (idx ++ [k])
+      = adZ grids coefs idx * ∑ k ∈ range zz.size, (newPopRaw grids zz coefs P).f (idx ++ [k]) := by
+  simp only [newPopRaw_f]
+  exact deposit_moment zz _ _ hg.1 (bracket_width_ne zz _ hg)
+
+theorem getD_set_self (idx : Idx) (dest k : ℕ) (h : dest < idx.length) : (idx.set dest k).getD dest 0 = k := by
+  simp [List.getD_eq_getElem?_getD, h]
+
+/-- a line of a pulse's result along the destination axis, summed against any weights `v` -/
+theorem pulseRaw_line_sum (gridsC : List (Array ℚ)) (g : Array ℚ) (coefs : List ℚ) (dest : ℕ) (P : Dens) (idx : Idx)
+    (hd : dest < idx.length) (v : ℕ → ℚ) :
+    ∑ k ∈ range g.size, v k * (pulseRaw gridsC g g coefs dest P).f (idx.set dest k)
+      = ∑ j ∈ range g.size, trapzW g j *
+          ∑ k ∈ range g.size, v k * depositAt g (P.f (idx.set dest j)) (adZ gridsC coefs (idx.set dest j)) k := by
+  simp only [pulseRaw_f, List.set_set, getD_set_self idx dest _ hd, Finset.mul_sum]
+  rw [Finset.sum_comm]
+  apply Finset.sum_congr rfl
+  intro j _
+  apply Finset.sum_congr rfl
+  intro k _
+  ring
+
+/-- pulse of a point density (all of the line's mass in the cell with destination index `c`): the destination carries
+    the mixed frequency of that cell -/
+theorem pulseRaw_mixture (gridsC : List (Array ℚ)) (g : Array ℚ) (coefs : List ℚ) (dest : ℕ) (P : Dens) (idx : Idx)
+    (hd : dest < idx.length) (hg : GridOk g) (c : ℕ) (hc : c < g.size)
+    (hpt : ∀ j, j ≠ c → P.f (idx.set dest j) = 0) :
+    ∑ k ∈ range g.size, gv g k * (pulseRaw gridsC g g coefs dest P).f (idx.set dest k)
+      = adZ gridsC coefs (idx.set dest c) * ∑ k ∈ range g.size, (pulseRaw gridsC g g coefs dest P).f (idx.set dest k) := by
+  have h1 := pulseRaw_line_sum gridsC g coefs dest P idx hd (fun _ => 1)
+  simp only [one_mul] at h1
+  rw [pulseRaw_line_sum gridsC g coefs dest P idx hd (gv g), h1]
+  have collapse : ∀ (v : ℕ → ℚ),
+      ∑ j ∈ range g.size, trapzW g j * ∑ k ∈ range g.size, v k * depositAt g (P.f (idx.set dest j)) (adZ gridsC coefs (idx.set dest j)) k
+        = trapzW g c * ∑ k ∈ range g.size, v k * depositAt g (P.f (idx.set dest c)) (adZ gridsC coefs (idx.set dest c)) k := by
+    intro v
+    apply Finset.sum_eq_single c
+    · intro j _ hj
+      rw [hpt j hj]
+      simp [depositAt_zero g _ hg.1]
+    · intro h; exact absurd (Finset.mem_range.2 hc) h
+  have c1 := collapse (fun _ => 1)
+  simp only [one_mul] at c1
+  rw [collapse (gv g), c1, deposit_moment g _ _ hg.1 (bracket_width_ne g _ hg)]
+  ring
 
 end DadiVerif.Admix
